@@ -663,3 +663,85 @@ Lemma iso_example :
   /\ gtable_eqb (glob (y_hrun false (t_fix live) (hinit live_gtable) iso_ops)) live_gtable = false
   /\ gtable_eqb (glob (y_hrun true (t_fix live) (hinit live_gtable) iso_ops)) live_gtable = true.
 Proof. repeat split; vm_compute; reflexivity. Qed.
+
+(* ------------------------------------------------------------------ *)
+(** * Replacement types: an opaque shape closes every route to the real object *)
+
+Lemma assoc_in {A} k (l : list (str * A)) v : assoc k l = Some v -> In (k, v) l.
+Proof.
+  induction l as [|[k' v'] r IH]; simpl; [discriminate|].
+  destruct (str_eqb_spec k' k) as [->|Hn]; [intros H; inversion H; now left|].
+  intros H; right; now apply IH.
+Qed.
+
+Lemma restricted_def_in t n res cs : restricted_def t n = Some (res, cs) -> In (n, res, cs) (t_restricted t).
+Proof.
+  unfold restricted_def. intros H. apply assoc_in in H.
+  apply in_map_iff in H. destruct H as [[[n' r'] c'] [E Hin]]. inversion E; subst. exact Hin.
+Qed.
+
+Lemma by_callees_no_exit cs : existsb ends_process cs = false -> by_callees cs <> HostExit.
+Proof. unfold by_callees. intros ->. destruct (existsb panics cs); discriminate. Qed.
+
+Lemma opaque_field_reach fs meth :
+  forallb (fun f => negb (f_exp f) && negb (f_emb f)) fs = true ->
+  forall f, In f fs -> field_reach f meth = Recoverable /\ f_emb f = false.
+Proof.
+  rewrite forallb_forall. intros H f Hf. specialize (H f Hf).
+  apply andb_true_iff in H. destruct H as [H1 H2]. rewrite negb_true_iff in H1, H2.
+  unfold field_reach. now rewrite H1.
+Qed.
+
+Lemma find_field_in n fs f : find_field n fs = Some f -> In f fs.
+Proof.
+  induction fs as [|g r IH]; simpl; [discriminate|].
+  destruct (str_eqb (f_name g) n); [intros H; inversion H; now left|]. intros H; right; now apply IH.
+Qed.
+
+(** For every table, every replacement type of opaque shape, every route (any field name, any field
+    index) and every method: the call does not end the host. *)
+Theorem routes_confined : forall t ty fs r meth,
+  type_opaque t ty fs = true -> y_route t ty fs r meth <> HostExit.
+Proof.
+  intros t ty fs r meth Ho. unfold type_opaque in Ho. apply andb_true_iff in Ho. destruct Ho as [Hf Hm].
+  pose proof (opaque_field_reach fs meth Hf) as Hfr.
+  assert (Hw : y_wrapper t ty fs meth <> HostExit).
+  { unfold y_wrapper. destruct (restricted_def t (ty ++ s "." ++ meth)) as [[res cs]|] eqn:E.
+    - apply restricted_def_in in E. rewrite forallb_forall in Hm.
+      assert (K : ty ++ s "." ++ meth = (ty ++ s ".") ++ meth) by (now rewrite <- app_assoc).
+      rewrite K in E. specialize (Hm _ E). cbv beta iota zeta in Hm.
+      rewrite has_prefix_app in Hm. apply andb_true_iff in Hm. destruct Hm as [_ Hm].
+      apply by_callees_no_exit. now apply negb_true_iff.
+    - unfold promoted.
+      assert (Hx : existsb (fun f => f_emb f && outcome_eqb (real_method (f_typ f) meth) HostExit) fs = false).
+      { apply not_true_is_false. intros Hx. apply existsb_exists in Hx. destruct Hx as [f [Hin Hx]].
+        destruct (Hfr f Hin) as [_ He]. rewrite He in Hx. discriminate. }
+      rewrite Hx. discriminate. }
+  destruct r; simpl; try exact Hw; try discriminate.
+  - destruct (find_field name fs) eqn:E; [|discriminate].
+    apply find_field_in in E. destruct (Hfr _ E) as [-> _]. discriminate.
+  - destruct (nth_error fs idx) eqn:E; [|discriminate].
+    apply nth_error_In in E. destruct (Hfr _ E) as [-> _]. discriminate.
+  - destruct (find_field name fs) eqn:E; [|discriminate].
+    apply find_field_in in E. destruct (Hfr _ E) as [-> _]. discriminate.
+  - assert (Hx : existsb (fun f => outcome_eqb (field_reach f meth) HostExit) fs = false).
+    { apply not_true_is_false. intros Hx. apply existsb_exists in Hx. destruct Hx as [f [Hin Hx]].
+      destruct (Hfr f Hin) as [Hr _]. rewrite Hr in Hx. discriminate. }
+    rewrite Hx. destruct fs; discriminate.
+Qed.
+
+Lemma replacements_opaque_live :
+  replacements_opaque live sb_restricted_types = true /\ replacements_opaque live_other sb_restricted_types = true
+  /\ (1 <=? length sb_restricted_types) = true /\ (1 <=? length (guarded_reals live sb_restricted_types)) = true.
+Proof. repeat split; vm_compute; reflexivity. Qed.
+
+(** an embedded (hence exported) real logger with only the Fatal overrides: opaque fails, and the
+    field routes reach the real Fatal *)
+Definition embedded_shape : list rfield := [(s "Logger", true, true, s "*log.Logger")].
+Lemma embedded_refuted :
+  type_opaque snapshot (s "logLogger") embedded_shape = false
+  /\ y_route snapshot (s "logLogger") embedded_shape (RFieldSel (s "Logger")) (s "Fatalln") = HostExit
+  /\ y_route snapshot (s "logLogger") embedded_shape (RReflField 0) (s "Fatal") = HostExit
+  /\ y_route snapshot (s "logLogger") embedded_shape RDirect (s "Fatal") = Recoverable
+  /\ y_route snapshot (s "logLogger") [(s "l", false, false, s "*log.Logger")] (RFieldSel (s "l")) (s "Fatal") = Recoverable.
+Proof. repeat split; vm_compute; reflexivity. Qed.
